@@ -18,16 +18,14 @@ def run(spec, pid, tier, seed, replay=None):
         if spec.get("needs_cli"):
             core.build_cli()
     except core.BuildFailed as e:
-        print("ERROR: cannot build /repo with the harness: %s" % e)
-        return 2
+        return core.tie_broken(pid, "harness build", e)
     # 2. proof side: theorems of this property + driver, audit of axioms
     # the tables read off /repo's source and the toolchain (decision-table literals, hashed fields, Unicode classes) are
     # regenerated before every proof build: the models and several theorems import them
     try:
         core.regen_tables(core.extract_tables())
     except Exception as e:
-        print("ERROR: cannot extract the source tables: %s" % e)
-        return 2
+        return core.tie_broken(pid, "table extraction", e)
     pre = spec.get("pre_lake")
     if pre:
         pre()
